@@ -270,26 +270,35 @@ def negY (N : Nat) (data : Nat → K × K) (n : Nat) : K :=
 def sumQOf (N : Nat) (data : Nat → K × K) (n : Nat) : K :=
   ((List.range N).map fun j => if j = n then 0 else qOf data n j).sum
 
-/-- the θ = 0 step when the tree returns the exact sums -/
-theorem nonEdgePure_zero (N : Nat) (data : Nat → K × K) (tree : QuadTree.Tree K)
-    (hf : ∀ n acc, forces data 0 n tree acc = (List.range N).foldl (fstep data n) acc) (st : Array K × K) (n : Nat) :
-    nonEdgePure data 0 tree st n = (addAt st.1 n (negX N data n) (negY N data n), st.2 + sumQOf N data n) := by
+/-- the θ = 0 step when the tree returns the exact force sums and `sum_Q` up to a correction `δ n` -/
+theorem nonEdgePure_zero (N : Nat) (data : Nat → K × K) (tree : QuadTree.Tree K) (δ : Nat → K) (n : Nat)
+    (hf : ∀ acc : QuadTree.Acc K, forces data 0 n tree acc =
+      ((acc.1.1 + negX N data n, acc.1.2 + negY N data n), acc.2 + sumQOf N data n + δ n)) (st : Array K × K) :
+    nonEdgePure data 0 tree st n =
+      (addAt st.1 n (negX N data n) (negY N data n), st.2 + sumQOf N data n + δ n) := by
   unfold nonEdgePure
-  simp only [hf, foldl_fstep]
+  simp only [hf]
   rw [addAt_eq']
-  rfl
 
-theorem nonEdgeLoop_zero (N : Nat) (data : Nat → K × K) (tree : QuadTree.Tree K)
-    (hf : ∀ n acc, forces data 0 n tree acc = (List.range N).foldl (fstep data n) acc) :
-    ∀ (l : List Nat) (st : Array K × K),
-      l.foldl (nonEdgePure data 0 tree) st =
-        (l.foldl (fun a n => addAt a n (negX N data n) (negY N data n)) st.1, st.2 + (l.map (sumQOf N data)).sum) := by
+theorem nonEdgeLoop_zero (N : Nat) (data : Nat → K × K) (tree : QuadTree.Tree K) (δ : Nat → K) :
+    ∀ (l : List Nat), (∀ n ∈ l, ∀ acc : QuadTree.Acc K, forces data 0 n tree acc =
+        ((acc.1.1 + negX N data n, acc.1.2 + negY N data n), acc.2 + sumQOf N data n + δ n)) →
+      ∀ (st : Array K × K), l.foldl (nonEdgePure data 0 tree) st =
+        (l.foldl (fun a n => addAt a n (negX N data n) (negY N data n)) st.1,
+          st.2 + (l.map fun n => sumQOf N data n + δ n).sum) := by
   intro l
   induction l with
-  | nil => intro st; simp
+  | nil => intro _ st; simp
   | cons n l ih =>
-    intro st
-    rw [List.foldl_cons, nonEdgePure_zero N data tree hf, ih]
+    intro hf st
+    rw [List.foldl_cons, nonEdgePure_zero N data tree δ n (hf n (by simp)), ih fun m hm => hf m (by simp [hm])]
     simp [add_assoc]
+
+/-- the exact all-pairs fold in the component form used above -/
+theorem foldl_fstep_range (N : Nat) (data : Nat → K × K) (n : Nat) (acc : QuadTree.Acc K) :
+    (List.range N).foldl (fstep data n) acc =
+      ((acc.1.1 + negX N data n, acc.1.2 + negY N data n), acc.2 + sumQOf N data n + 0) := by
+  rw [foldl_fstep, add_zero]
+  rfl
 
 end TapkeeVerif.Tsne
